@@ -120,6 +120,8 @@ class Builtins:
             return self.ctx.opaque_method(I, args[0], name[len('extattr:'):], args[1:], kwargs, node)
         if name.startswith('object.'):
             return NONE
+        if name.startswith('extcontract:'):
+            return self.ctx.apply_ext_contract(I, name[len('extcontract:'):], args[0], args[1:], kwargs, node)
         ext = self.ctx.extern_call(I, name, args, kwargs, node)
         if ext is not NotImplemented:
             return ext
@@ -137,6 +139,8 @@ class Builtins:
             return VInt(len(I.cell(v).content))
         if I.is_dict(v):
             return self.ctx.dict_len(I, v, node)
+        if isinstance(v, VMap):
+            return VInt(v.th.Size(v.t))
         if isinstance(v, VInt):
             I.require(False, 'len-of-int', node, exc='TypeError')
             raise exc('TypeError', 'len(int)')
